@@ -134,10 +134,38 @@ def showRBAC : Option RBAC → String
 def showFilter (f : Filter) : String :=
   s!"(filter {S f.name} rules={showRBAC f.rules} shadow={showRBAC f.shadow} sprefix={S f.shadowPrefix} stat={S f.statPrefix})"
 
+/-- the ext_authz target: kind, cluster, authority / URI host, failure mode, status on error, path prefix -/
+def showTarget (t : ExtTarget) : String :=
+  s!"({if t.http then "http" else "grpc"} cluster={S t.cluster} host={S t.hostname} failopen={boolTok t.failOpen} " ++
+  s!"status={match t.status with | some c => toString c | none => "nil"} prefix={S t.pathPrefix})"
+
+/-- label of a target on `req` lines -/
+def targetLabel (t : ExtTarget) : String := (if t.http then "http:" else "grpc:") ++ String.ofList t.cluster
+
+/-- The service index the harness registers (hostname, namespace). -/
+def registry : List (Str × Str) :=
+  [ ("my-custom-ext-authz.foo.svc.cluster.local".toList, "foo".toList),
+    ("authz.foo.svc.cluster.local".toList, "foo".toList),
+    ("authz2.bar.svc.cluster.local".toList, "bar".toList),
+    ("ext.example.com".toList, "foo".toList), ("ext.example.com".toList, "bar".toList) ]
+
+/-- One provider token of the `custom` op: `name|grpc/http|service|port|failopen|status|prefix`, or (older
+    corpus files) a bare name, `http:`-prefixed for the HTTP kind, with the default service and port. -/
+def specOf (t : Str) : ProviderSpec :=
+  match splitOn '|' t with
+  | [n, k, svc, port, fo, st, pp] =>
+    { name := n, http := k == "http".toList, service := svc, port := (String.ofList port).toNat?.getD 0,
+      failOpen := fo == "1".toList, statusOnError := st, pathPrefix := pp }
+  | _ =>
+    let http := hasPrefix "http:".toList t
+    { name := if http then t.drop 5 else t, http := http,
+      service := "foo/my-custom-ext-authz.foo.svc.cluster.local".toList, port := 9000 }
+
 def showG : GFilter → String
   | .rbac f => showFilter f
-  | .extAuthz name rbacName pre =>
-    s!"(extauthz {S name} enabled=(meta {S rbacName} path=istio_ext_authz_shadow_effective_policy_id (str (prefix {S pre}))))"
+  | .extAuthz name rbacName pre t =>
+    s!"(extauthz {S name} enabled=(meta {S rbacName} path=istio_ext_authz_shadow_effective_policy_id (str (prefix {S pre}))) " ++
+    s!"target={showTarget t})"
 
 def showFilters (fs : List GFilter) : String := "[" ++ " ".intercalate (fs.map showG) ++ "]"
 
@@ -192,9 +220,7 @@ def step (s : DState) (toks : List String) : DState × String :=
   | "case" :: _ => ({}, "ok")
   | ["td", l] => ({ s with bundle := L l }, "ok")
   | ["custom", provs, multi] =>
-    let names := (L provs).map fun n => if hasPrefix "http:".toList n then n.drop 5 else n
-    let https := ((L provs).filter fun n => hasPrefix "http:".toList n).map (·.drop 5)
-    ({ s with custom := { providers := names, multi := tokBool multi, httpProviders := https } }, "ok")
+    ({ s with custom := CustomOpts.ofSpecs registry ((L provs).map specOf) (tokBool multi) }, "ok")
   | "wl" :: root :: ns :: labels :: rest =>
     -- rest: proxy type (sidecar | router | waypoint); service `name|objectName|ns|k8s` / `..|ext` (or -);
     -- flags: `term` = NewWaypointTerminationBuilder, `nosel` = EnableSelectorBasedK8sGatewayPolicy off
@@ -213,7 +239,8 @@ def step (s : DState) (toks : List String) : DState × String :=
     let legacy := (rest.drop 2).headD "" == "legacy"
     ({ s with policies := s.policies ++ [{ ns := (dec ns).toList, name := (dec name).toList, action := actionOf a,
                                            dryRun := isDryRun (if dry == "0" then none else some (dec dry).toList), provider := (dec prov).toList,
-                                           selector := labelsOf (rest.headD "-"),
+                                           -- (`%7B%7D` = `selector: {}`: non-nil without labels = no label to match)
+                                           selector := if rest.headD "-" == "%7B%7D" then [] else labelsOf (rest.headD "-"),
                                            targetRefs := if legacy then refs.drop 1 else refs,
                                            targetRef := if legacy then refs.head? else none, rules := [] }] }, "ok")
   | ["rule"] =>
@@ -246,11 +273,11 @@ def step (s : DState) (toks : List String) : DState × String :=
     let r := parseReq attrs
     -- decision of the generated filters, decision of the statement, ext_authz filters consulted (provider part of
     -- the id prefix they look for), providers the statement says must be asked
-    let asked := (extAuthzEnabled s.filters none r).map fun p =>
-      if hasPrefix (extPrefix []) p then p.drop (extPrefix []).length else '?' :: p
-    let mustAsk := specAsksOn s.wl s.bundle s.custom s.opts.forTCP s.opts.shapeTCP s.policies r
+    -- (named by their TARGET: kind and upstream cluster)
+    let asked := (extAuthzTargets s.filters none r).map targetLabel
+    let mustAsk := (specAskTargets s.wl s.bundle s.custom s.opts.forTCP s.opts.shapeTCP s.policies r).map targetLabel
     (s, s!"{decTok (evalGs s.filters r)} {decTok (specDecisionOn s.wl s.bundle s.custom s.opts.forTCP s.policies r)} " ++
-        s!"ext={encList (asked.map String.ofList)} ask={encList (mustAsk.map String.ofList)}")
+        s!"ext={encList asked} ask={encList mustAsk}")
   | _ => (s, "bad-op")
 
 /-- Stream `hyps` (not compared with the implementation): for every `req` line, whether the
@@ -268,8 +295,8 @@ def stepHyps (s : DState) (toks : List String) : DState × String :=
         s!"compiled={decTok (evalGs s.filters r)} spec={decTok (specDecisionOn s.wl s.bundle s.custom s.opts.forTCP s.policies r)} " ++
         s!"mig={boolTok mig} scope={boolTok scope} names={boolTok (entriesDistinctB s.opts sel)} " ++
         s!"iso={boolTok (customIsolatedB s.opts sel)} " ++
-        s!"ext={encList ((extAuthzEnabled s.filters none r).map String.ofList)} " ++
-        s!"ask={encList ((specAsksOn s.wl s.bundle s.custom s.opts.forTCP s.opts.shapeTCP s.policies r).map (fun p => String.ofList (extPrefix p)))}")
+        s!"ext={encList ((extAuthzTargets s.filters none r).map showTarget)} " ++
+        s!"ask={encList ((specAskTargets s.wl s.bundle s.custom s.opts.forTCP s.opts.shapeTCP s.policies r).map showTarget)}")
   | "build" :: _ => let (s', _) := step s toks; (s', "built")
   | _ => step s toks
 
